@@ -754,6 +754,9 @@ def _agg(cells, op, *args):
         for c in reversed(cells):
             c2 = C.coerce(c, k) if c.kind != k else c
             res = Cell(z3.If(c.null, res.null, FALSE), z3.If(c.null, res.val, c2.val), k)
+        if op == "first" and len(cells) > 1:
+            # known finding first_last_null_value: pandas skips a missing first/last value, Polars / SQL FIRST_VALUE do not
+            kf = zor(kf, kf_src("first_last_null_value", zand(cells[0].null, znot(res.null))))
         return Cell(res.null, res.val, k, dc, kf)
     if op == "last":
         return _agg(list(reversed(cells)), "first")
